@@ -840,6 +840,12 @@ func (g *Gen) addOblig(o *Oblig) {
 	}
 	pkg, name := ContractName(g.Fn)
 	o.Fn = pkg + "." + name
+	// a function-level scenario replays a fixed history against the real code for ANY failing obligation of the
+	// function (loop invariants included), unless the obligation carries its own template or is a vacuity cover
+	if g.FC != nil && g.FC.Opts["scenario"] != "" && o.ReplayTemplate == "" && !o.Cover && !isSafetyKind(o.Kind) {
+		o.ReplayTemplate = g.FC.Opts["scenario"]
+		o.ReplayPkgDir = strings.TrimPrefix(strings.TrimPrefix(g.FC.Pkg, modPath), "/")
+	}
 	// unique names
 	base := o.Name
 	for k := 2; g.obNames[o.Name]; k++ {
